@@ -63,6 +63,14 @@ class C08(Prop):
                 for c in spec["cols"]:
                     if c["kind"] == "datetime":
                         c["values"] = [v if "ts" in v else {"ts": "2001-02-03T04:05:06"} for v in c["values"]]
+            if i % 5 == 1:
+                # a row in which every value is missing / empty (numbers and text only)
+                spec = T.gen_table(rng, sep="\x00", bigint=False, odd=True, kinds=["float", "text", "float"], min_cols=1)
+                n = len(spec["cols"][0]["values"]) if spec["cols"] else 0
+                if n >= 2:
+                    r = rng.randrange(n)
+                    for c in spec["cols"]:
+                        c["values"][r] = {"f": "nan"} if c["kind"] == "float" else ""
             out.append({"table": spec})
         return out
 
